@@ -3,9 +3,9 @@
    ("-" = empty).
      Q <form> <hex s> <tbl>   form = K:ml:auto:ah:ascii:gr:indent  (K = s|b)
                               tbl  = "-" | rune.pg,rune.pg,...  (hex rune, IsPrint/IsGraphic bits)
-        -> <hex quote> <unquote_impl(quote)> <unquote_spec(quote)>
+        -> <hex quote> <unquote_impl(quote)> <unquote_int32(quote)>
      U <hex literal>
-        -> <unquote_impl> <unquote_spec>
+        -> <unquote_impl> <unquote_int32>   (int32: the regression layer, see Lit/Unquote.v)
      D <hex bytes>  -> <rune> <width> <lastrune> <lastwidth>     (decimal)
      E <hex rune>   -> <hex bytes>
      S <hex bytes>  -> <hex sanitized>
@@ -74,10 +74,10 @@ let handle line =
   match String.split_on_char ' ' line with
   | ["Q"; f; hs; t] ->
     let q = c09_quote (parse_tbl t) (parse_form f) (str_of_string (unhex hs)) in
-    Printf.sprintf "%s %s %s" (hex (string_of_str q)) (show_outcome (c09_unquote_impl q)) (show_outcome (c09_unquote_spec q))
+    Printf.sprintf "%s %s %s" (hex (string_of_str q)) (show_outcome (c09_unquote_impl q)) (show_outcome (c09_unquote_int32 q))
   | ["U"; hl] ->
     let l = str_of_string (unhex hl) in
-    Printf.sprintf "%s %s" (show_outcome (c09_unquote_impl l)) (show_outcome (c09_unquote_spec l))
+    Printf.sprintf "%s %s" (show_outcome (c09_unquote_impl l)) (show_outcome (c09_unquote_int32 l))
   | ["D"; hs] ->
     let s = str_of_string (unhex hs) in
     let (r, w) = c09_decode s in
